@@ -10,7 +10,7 @@ from ..util import Info, Raised, expect, expect_eq, impl
 
 ID = "C14"
 LEVEL = "exploration"
-BUDGET = {"quick": 4000, "thorough": 250000}
+BUDGET = {"quick": 4000, "thorough": 150000}
 RULE = (
     "case = (key_size in {1,2,3,4,8,32} (thorough: all of 1..32), default in {b'', 00, "
     "'default'}, history of set (incl. blank and default values, repeated writes) / "
